@@ -138,6 +138,20 @@ Section Site.
   Qed.
 End Site.
 
+(* What the callee finally looks the listeners up with.  When the key lives in an object of its
+   own (`const Event e = getEvent(...)`) that is the value read at EKey time.  When the key is
+   only a reference to what a reference-returning getEvent policy handed back (`const auto & e`),
+   it denotes the parameters themselves, as they are AFTER the arguments have been forwarded. *)
+Definition key_seen (aliases : bool) (kread : list nat) (s : st) : option (list val) :=
+  if aliases then Some (map (fun i => nth i (cells s) MovedFrom) kread) else key s.
+
+Theorem aliased_key_refuted :
+  exists evs, admissible 1 Statement evs /\
+              key_seen true [0] (run (fun _ => true) [0] false [Val 7] evs) = Some [MovedFrom].
+Proof.
+  exists [EKey; EFwd 0]. split; [split; [apply Permutation_refl|eexists; reflexivity]|reflexivity].
+Qed.
+
 (* implicit move in getEvent: when the key is move-constructed from parameter 0 and that
    parameter is forwarded afterwards (HeterEventDispatcher include-event form), the listener
    receives a moved-from first argument even in the Statement shape *)
